@@ -12,11 +12,17 @@
    — a labelled edge, or two edges through one blank node — between nodes of the endpoints'
    URIs (C15_relation_path); the cluster of a bundle carries its URI and holds one element
    node per element record of the bundle (C15_cluster_elements); every further end of an n-ary relation has its labelled edge
-   from the blank node to a node of its URI (C15_nary_further_ends).  Labels, annotation
-   rows, styles and Graphviz's acceptance of the text are checked on every case against
-   the real Graphviz (partial). *)
+   from the blank node to a node of its URI (C15_nary_further_ends).  The HTML-like labels
+   (DotLabel.v: the annotation table of a record's attributes and the two-line label of an
+   element drawn under its prov:label, as dot.py assembles them character by character; tied
+   per run to the labels of the pydot object) are accepted by an acceptor written from
+   Graphviz's HTML-label grammar, for every list of rows and every text made of XML
+   characters (C15_annotation_table_accepted, C15_fancy_label_accepted; a control character
+   that is no XML character is finding C15-F1: C15_F1_refuted).  Styles and Graphviz's
+   acceptance of the whole text are checked on every case against the real Graphviz; that the
+   acceptor accepts no more than Graphviz is measured there too (partial). *)
 From Coq Require Import String Ascii List.
-From Prov Require Import Str Sexp Tables Nsm Values Record World Dot DotProofs Dotg DotgProofs.
+From Prov Require Import Str Sexp Tables Nsm Values Record World Dot DotProofs Dotg DotgProofs DotLabel DotLabelProofs.
 Import ListNotations.
 Open Scope string_scope.
 
@@ -95,6 +101,45 @@ Theorem C15_node_ids_distinct : forall o u s1 a rels s2 cs s3 c,
   NoDup (node_ids (a ++ concat (map snd cs) ++ c)).
 Proof. exact node_ids_distinct. Qed.
 Print Assumptions C15_node_ids_distinct.
+
+(* ---- the HTML-like labels.  ann_label rs: the label of the annotation node of a record whose displayed attributes are
+   rs (attribute URI, printed name, link target of an Identifier value, text of the value), exactly the text dot.py
+   joins from ANNOTATION_START_ROW, one ANNOTATION_ROW_TEMPLATE per attribute and ANNOTATION_END_ROW.  html_label_ok:
+   the acceptor (XML lexical level + the nesting rules of Graphviz's label grammar).  row_safe: the four texts hold XML
+   characters only.  Any number of rows, any texts: markup characters in names, URIs and values cannot break out. *)
+Theorem C15_annotation_table_accepted : forall rs, rs <> [] -> Forall row_safe rs -> html_label_ok (ann_label rs) = true.
+Proof. exact ann_label_accepted. Qed.
+Print Assumptions C15_annotation_table_accepted.
+
+(* each row leaves the acceptor where it found it, one row further — whatever stands in the row *)
+Theorem C15_annotation_row_balanced : forall r k stk tt tb, row_safe r ->
+  hrun (in_table k stk tt tb) (nl ++ ann_row r) = in_table (S k) stk tt tb.
+Proof. exact run_row. Qed.
+
+(* escaped text never leaves a double-quoted attribute value (href="...") and never opens a tag in character data *)
+Theorem C15_escaped_stays_in_attribute : forall s n stk tt tb, xml_safe s = true ->
+  hrun (mkH (MAttrVal n) stk tt tb) (html_escape s) = mkH (MAttrVal n) stk tt tb.
+Proof. exact run_attr_value. Qed.
+Theorem C15_escaped_stays_text : forall s stk tt tb, xml_safe s = true -> text_place (top stk) = true ->
+  hrun (mkH MText stk tt tb) (html_escape s) = mkH MText stk (text_flag stk s tt) tb.
+Proof. exact run_text. Qed.
+Print Assumptions C15_escaped_stays_text.
+
+(* use_labels=True, label different from the identifier: <label<br /><font ...>identifier</font>> *)
+Theorem C15_fancy_label_accepted : forall label ident, xml_safe label = true -> xml_safe ident = true ->
+  html_label_ok (fancy_label label ident) = true.
+Proof. exact fancy_label_accepted. Qed.
+Print Assumptions C15_fancy_label_accepted.
+
+(* without the premise (finding C15-F1): a vertical tab in a value *)
+Lemma C15_F1_refuted :
+  html_label_ok (ann_label [mkRow "http://e/k" "ex:k" None ("a" ++ String (ascii_of_nat 11) "b")]) = false.
+Proof. exact control_char_refuted. Qed.
+
+Example C15_annotation_table_applies :
+  html_label_ok (ann_label [mkRow "http://e/k" "ex:k" None "a<b & ""c"" 'd'";
+                            mkRow "http://e/k2" "ex:k2" (Some "http://x/?a=1&b=2") "http://x/?a=1&b=2"]) = true.
+Proof. exact ann_label_applies. Qed.
 
 Example C15_structure_applies :
   let ex l := mkQn (mkNs "ex" "http://e/") l in
